@@ -25,7 +25,7 @@ var miscIdioms = []struct{ name, text string }{
 	qrs := []rune(qs)
 	qbs[0] = 'H'
 	qrs[1] = 'E'
-	fmt.Println("@T@", len(qs), len(qbs), len(qrs), string(qbs[:2]), string(qrs[:3]), string(rune(65+((@1@)%26+26)%26)), qs[1:3] == "\xc3\xa9", strings.ToUpper(string(qrs[2:5])))
+	fmt.Println("@T@", len(qs), len(qbs), len(qrs), string(qbs[:2]), string(qrs[:3]), string(rune(k0+65+((@1@)%26+26)%26)), qs[1:3] == "\xc3\xa9", strings.ToUpper(string(qrs[2:5])))
 	for qi, qr := range "aé" {
 		fmt.Println("@T@", qi, qr, string(qr))
 	}
